@@ -376,7 +376,7 @@ inline const Index& index()
 inline long count(Ctx& c)
 {
     long single = static_cast<long>(index().fields.size()) * backgroundsFor(c.thorough());
-    long seq = static_cast<long>(classes().size()) * (c.thorough() ? 4000 : 150);
+    long seq = static_cast<long>(classes().size()) * (c.thorough() ? 40000 : 150);
     return 2 + single + seq;
 }
 inline void run(Ctx& c, long idx)
